@@ -48,7 +48,7 @@ func rawShortName(full string) string {
 }
 
 func typeStr(t types.Type) string {
-	return types.TypeString(t, func(p *types.Package) string { return p.Name() })
+	return canonAny(types.TypeString(t, func(p *types.Package) string { return p.Name() }))
 }
 
 func defShape(a *ssa.Alloc) string {
